@@ -14,12 +14,14 @@ mod c17;
 mod c18;
 mod sqlchecks;
 mod sqlgen;
+mod sqlgen2;
 mod sqlite;
 mod world;
 mod common;
 mod dpchecks;
 mod dpdump;
 mod dpir;
+mod features;
 mod grids;
 mod probe;
 mod refm;
@@ -37,6 +39,16 @@ fn main() {
     if id == "dpdump" {
         install_panic_hook();
         dpdump::run(&args[2]);
+        return;
+    }
+    if id == "sqlgen2" {
+        // qv sqlgen2 <depth>: list the composed queries (development aid)
+        let d: usize = args[2].parse().unwrap_or(1);
+        let rels = sqlgen2::compose(d);
+        for r in &rels {
+            println!("{}\t{}", r.term, r.sql);
+        }
+        eprintln!("{} queries", rels.len());
         return;
     }
     if id == "probe-sql" {
